@@ -192,6 +192,10 @@ def real_proj(ex):
 def normalise(p):
     """at the end of the run `_stop_coro_tasks(*self._coro_tasks)` iterates a SET of tasks (address order): the
     order of the final cancellation wake-ups is not part of the engine's behaviour, compare it as a multiset"""
+    if p['done'] in ('cancelled', 'error'):
+        # how the run ended abnormally (error result, raised BaseException, CancelledError of a body or of the caller)
+        # is judged at level O; with several failed tasks the engine reports whichever its task SET yields first
+        p = dict(p, done='failed')
     if p['done'] != 'pending':
         return dict(p, ready=sorted(p['ready']))
     if p.get('phase') == 'draining':
